@@ -17,6 +17,9 @@ THEOREMS = [
     "recompose_split", "resolve_same_document", "oxiri_agrees_partial", "oxiri_agrees_refuted_rootpop",
     "oxiri_agrees_refuted_panic", "oxiri_agrees_refuted_base_dots", "oxiri_agrees_refuted_ref_authority",
     "oxiri_deviation_values", "resolve_closed_refuted",
+    # round 3: fuel discharged, panic-freedom and RFC agreement on bases with an authority
+    "remove_dot_segments_fuel", "accepted_ref_no_leading_colon", "typed_resolve_never_panics_with_authority",
+    "oxiri_agrees_abs_path_partial",
 ]
 
 CONFIG = {
@@ -34,9 +37,18 @@ CONFIG = {
                   "model of oxiri's recogniser). Kernel-checked soundness of the decision procedure; the per-regex obligations are "
                   "evaluated by native_decide. Resolution: the RFC 3986 5.2 oracle is an executable Lean model (proved: Appendix-B "
                   "split/recompose is lossless, the empty reference drops exactly the fragment); the algorithm the code really runs "
-                  "(oxiri 0.2.11) is transcribed as a second model, proved equal to the oracle for same-document references ONLY "
-                  "(oxiri_agrees_partial) and refuted in general by four kernel-checked witnesses (= the four findings). "
-                  "Iri::resolve = RFC 3986 5.2 on generated pairs is differential, not proof.",
+                  "(oxiri 0.2.11) is transcribed as a second model (exact on every generated pair) and PROVED, for all inputs, "
+                  "(a) never to report an error - i.e. the typed resolve never panics - for any accepted reference against any "
+                  "base that has an authority (typed_resolve_never_panics_with_authority; no accepted reference starts with ':', "
+                  "kernel-checked derivative of the generated regex), (b) to return exactly the RFC 3986 5.2 result for "
+                  "same-document references on any base (oxiri_agrees_partial) and for absolute-path references, dot segments "
+                  "included, on any base with an authority (oxiri_agrees_abs_path_partial: parse_path::<true> simulates 5.2.4 "
+                  "segment by segment); the fuel of the 5.2.4 model is proved never exhausted (remove_dot_segments_fuel). The "
+                  "full statement (OxiriAgrees) is refuted by four kernel-checked witnesses (= the four findings: authority-less "
+                  "bases, dot segments in the base, references with scheme/authority and dot segments). REMAINS DIFFERENTIAL: "
+                  "relative-path and network-path references against dot-free bases (agreement seen on every generated pair, "
+                  "not proved), closure of the result under the IRI grammar (the RFC's own result is not always an IRI: "
+                  "resolve_closed_refuted), and the tie of both resolution models to the real oxiri / sophia code.",
     "level_note": "Trusted: RFC ABNF transcription; hand model of oxiri's recogniser (C08's Backend.Oxiri, tied per case by "
                   "bnew/brnew); the Python regex translator (cross-checked per case against the regex crate); native_decide (Lean "
                   "compiler) for the language obligations; source-shape extractor tools/extractors/c09.py (fail-closed). "
